@@ -95,8 +95,22 @@ func condFacts(cond ssa.Value, val bool) []Fact {
 	if ph, ok := cond.(*ssa.Phi); ok && (ph.Comment == "||" && !val || ph.Comment == "&&" && val) {
 		// short-circuit lowering: `a || b` false means every operand is false; `a && b` true means every operand is true
 		var out []Fact
-		for _, e := range ph.Edges {
+		for i, e := range ph.Edges {
 			if c, isC := e.(*ssa.Const); isC && c.Value != nil {
+				// the short-circuit edge was NOT taken: the operand tested at the end of that predecessor evaluated the
+				// other way (`a && b` true: a was true; `a || b` false: a was false)
+				if i < len(ph.Block().Preds) {
+					pr := ph.Block().Preds[i]
+					if len(pr.Instrs) > 0 {
+						if ifi, ok := pr.Instrs[len(pr.Instrs)-1].(*ssa.If); ok && len(pr.Succs) == 2 && pr.Succs[0] != pr.Succs[1] {
+							if pr.Succs[1] == ph.Block() { // false edge short-circuits (&&)
+								out = append(out, condFacts(ifi.Cond, true)...)
+							} else if pr.Succs[0] == ph.Block() { // true edge short-circuits (||)
+								out = append(out, condFacts(ifi.Cond, false)...)
+							}
+						}
+					}
+				}
 				continue
 			}
 			out = append(out, condFacts(e, val)...)
